@@ -42,7 +42,7 @@ func cmdConc(args []string) error {
 		`s matches "^sc"`, `s not matches "x$" and m.s matches "x"`, `any m3 as k, v { k matches "^[ab]$" }`, `s matches "("`,
 		`all a.b.c as v { v.x == 1 and v.y != 2 }`, `any a.b.c.d.e as v { v.x == 2 }`, `all a.b.c.d.e.f as _, v { v.x != 9 }`, `any a.b.c.d.e.f.g as k, v { v.x == 3 and k != 1 }`,
 		`all "/a/b/c" as v { v.x == 1 or v.y == 2 }`, `any l as v { any v as w { w == 2 } }`, `m.zz == 1 or st.Zz is empty`, `u_str == unk and 1 in l.0`, `X == 1 and Y != a`,
-		`all Tags as t { t matches "^t" }`, `any big as v { v == 39 }`, `num == 1 and X == 1`, `any a.b.c as v { v.x == 1 or v.y == 2 }`, `num != 2 or X in l`,
+		`all Tags as t { t matches "^t" }`, `any big as v { v == 39 }`, `num == 1 and X == 1`, `any a.b.c as v { v.x == 1 or v.y == 2 }`, `num != 2 or X in l`, `1 in mixed`, `0 in mixed or 1.5 in mixed`,
 	}
 	opts := [][]bexpr.Option{nil, {bexpr.WithUnknownValue("unk")}, {bexpr.WithHookFn(run.HookFn("unwrap"))}, {bexpr.WithTagName("json"), bexpr.WithMaxExpressions(1 << 20)}}
 	docs := func() []interface{} {
@@ -70,7 +70,7 @@ func cmdConc(args []string) error {
 		for ei, src := range exprs {
 			for _, k := range []int{2, 4, 16} {
 				for _, ncalls := range []int{1, 3, 400} {
-					if ncalls == 400 && (k != 4 || ei < 14) {
+					if ncalls == 400 && (k == 2 || ei < 14) {
 						continue // the long-running variant only for the expressions whose selectors meet values of several numeric kinds
 					}
 					for _, object := range []string{"shared evaluator", "shared filter", "create concurrently"} {
